@@ -8,6 +8,7 @@ import (
 	"fmt"
 	"os"
 	"runtime"
+	"strings"
 	"sync"
 	"testing"
 	"testing/synctest"
@@ -253,6 +254,58 @@ func TestVerifC20(t *testing.T) {
 		}
 		if conns > 12 {
 			m.Violation("repeated iterations do not accumulate open connections", map[string]any{"leak": "200 iterations with a flapping master and a host leaving and rejoining the registry while its handle is in use, manager_switchover on"}, fmt.Sprintf("%d open connections to 3 servers", conns))
+		}
+	}
+	// the helper goroutine of the pre-switchover speed-up phase (one per planned semi-sync switchover attempt) ends with the phase
+	{
+		left := 0
+		runs := 2
+		if o.Thorough() {
+			runs = 5
+		}
+		func() { // real time: the phase polls on a 3 s ticker
+			dir, _ := os.MkdirTemp("", "c20p")
+			defer os.RemoveAll(dir)
+			w := vk.NewWorld()
+			vInstall(w)
+			d := newMemDCS(w, "h1")
+			d.silent = true
+			u1 := hostUUID("h1")
+			for i := 1; i <= 3; i++ {
+				h := fmt.Sprintf("h%d", i)
+				n := &vk.Node{Host: h, UUID: hostUUID(h), Up: true, Executed: u1 + ":1-100", Flush: 1, SyncBinlog: 1}
+				if i > 1 {
+					lag := int64(500)
+					n.RO, n.SuperRO, n.Chan, n.Retrieved, n.Lag = true, true, &vk.Chan{Source: "h1", IO: true, SQL: true}, n.Executed, &lag
+				}
+				w.AddNode(n)
+				d.rawSet(dcs.JoinPath(pathHANodes, h), mysql.NodeConfiguration{})
+			}
+			va := newVApp(w, d, vAppOpts{Hostname: "h1", Dir: dir, Tune: func(cfg *config.Config) {
+				cfg.SemiSync = true
+				cfg.ReplicationConvergenceTimeoutSwitchover = 200 * time.Millisecond
+			}})
+			defer va.close()
+			d.rawSet(pathMasterNode, "h1")
+			view := va.app.getClusterStateFromDB()
+			for k := 0; k < runs; k++ {
+				sw := Switchover{Cause: CauseManual, MasterTransition: SwitchoverTransition, To: "h2", InitiatedBy: "operator", InitiatedAt: time.Now(), StartedBy: "h1", StartedAt: time.Now()}
+				func() {
+					defer func() { _ = recover() }()
+					_ = va.app.optimizationPhase([]string{"h1", "h2", "h3"}, &sw, "h1", view)
+				}()
+			}
+			time.Sleep(300 * time.Millisecond)
+			buf := make([]byte, 1<<20)
+			buf = buf[:runtime.Stack(buf, true)]
+			left = strings.Count(string(buf), "startSyncerGoroutine")
+		}()
+		m.Evaluations++
+		m.CountN("speedup_phase_runs", runs)
+		m.CountN("speedup_phase_goroutines_left", left)
+		if left > 0 {
+			m.Violation("repeated iterations do not accumulate goroutines", map[string]any{"leak": "the pre-switchover speed-up phase of planned semi-sync switchover attempts"},
+				fmt.Sprintf("%d goroutine(s) started by the speed-up phase are still alive after %d phases ended", left, runs))
 		}
 	}
 	m.Rule = "iterations of the real state handlers over coordination trees with dangling references (recorded master / switch endpoints / active members that are not registered, hosts removed between iterations, missing health records), every start state, single failing calls; the recovery checker over master-record x replication x stuck commits; 220 iterations with a flapping master for leaks; thorough: the concurrent loops of one process under the race detector"
